@@ -79,7 +79,7 @@ func valuelessOperand(script string) bool {
 				// very identifier token the operator was written after. If that
 				// token is in no statement at all, something else swallowed it
 				// (as before fix 68c6dcc): not excused.
-				if i > 0 && holdsToken(reflect.ValueOf(ss[i-1]), pf.Token, 0) {
+				if i > 0 && (holdsToken(reflect.ValueOf(ss[i-1]), pf.Token, 0) || holdsMember(reflect.ValueOf(ss[i-1]), pf.Token.Literal, 0)) {
 					found = true
 				} else {
 					repaired = true
@@ -207,6 +207,50 @@ func holdsToken(v reflect.Value, tk token.Token, depth int) bool {
 	case reflect.Map:
 		for _, k := range v.MapKeys() {
 			if holdsToken(k, tk, depth+1) || holdsToken(v.MapIndex(k), tk, depth+1) {
+				return true
+			}
+		}
+	}
+	return false
+}
+
+// holdsMember reports whether the tree below v contains a member access
+// "x . name": the parser replaces the identifier after the dot by a string
+// literal that carries no position, so holdsToken cannot find the token that
+// a following "++" was written after ("y = x . name ++;").
+func holdsMember(v reflect.Value, name string, depth int) bool {
+	if depth > 200 || !v.IsValid() {
+		return false
+	}
+	switch v.Kind() {
+	case reflect.Ptr, reflect.Interface:
+		if v.IsNil() {
+			return false
+		}
+		if in, ok := v.Interface().(*ast.InfixExpression); ok && in != nil && in.Operator == "." {
+			if sl, ok := in.Right.(*ast.StringLiteral); ok && sl != nil && sl.Value == name && sl.Token.Line == 0 && sl.Token.Column == 0 {
+				return true
+			}
+		}
+		return holdsMember(v.Elem(), name, depth+1)
+	case reflect.Struct:
+		for i := 0; i < v.NumField(); i++ {
+			if v.Type().Field(i).PkgPath != "" {
+				continue
+			}
+			if holdsMember(v.Field(i), name, depth+1) {
+				return true
+			}
+		}
+	case reflect.Slice, reflect.Array:
+		for i := 0; i < v.Len(); i++ {
+			if holdsMember(v.Index(i), name, depth+1) {
+				return true
+			}
+		}
+	case reflect.Map:
+		for _, k := range v.MapKeys() {
+			if holdsMember(k, name, depth+1) || holdsMember(v.MapIndex(k), name, depth+1) {
 				return true
 			}
 		}
